@@ -1,0 +1,11 @@
+//go:build verif
+
+package sshsb
+
+// Machine-checked contracts for /verif (gowp). Comment-only file: it adds no code.
+
+// C18: same fragment as the container sandbox: quoted here-document per variable
+//@ func (*SSHSandbox).initSequence [C18]
+//@   layers contract
+//@   loop 1 invariant hasprefix(eofTag, "EOF")
+//@   loop 1 step initCode == cat(prev(initCode), envSeg($k, $v, eofTag))
